@@ -366,6 +366,21 @@ theorem boxed_shorten_exact {l : List Nat} (h : WF l) (hl : 1 ≤ l.length) (bp 
       then some (toLimbs (max 1 ((bp + 63) / 64)) (val l % B ^ (max 1 ((bp + 63) / 64)))) else none :=
   boxedShorten_spec h hl bp
 
+/-- `From<Vec<Limb>>` / `From<Uint<N>>` / `From<u8..u128> for BoxedUint`: the value is kept; only an
+    empty vector is padded to one zero limb -/
+theorem boxed_of_vec_exact (l : List Nat) :
+    val (boxedOfVec l) = val l ∧ (boxedOfVec l).length = max 1 l.length ∧ (l ≠ [] → boxedOfVec l = l) := by
+  cases l with
+  | nil => exact ⟨rfl, rfl, fun h => absurd rfl h⟩
+  | cons x xs =>
+    refine ⟨rfl, ?_, fun _ => rfl⟩
+    show (x :: xs).length = _
+    simp only [List.length_cons]; omega
+
+/-- a zero-limb `BoxedUint` prints exactly like one zero limb -/
+theorem boxed_fmt_empty (upper alt : Bool) :
+    boxedFmtHex upper alt [] = fmtHex false alt [0] ∧ boxedFmtBin alt [] = fmtBin alt [0] := ⟨rfl, rfl⟩
+
 /-! ## T16.4 — words, primitives, concat / split / resize -/
 
 theorem words_identity (l : List Nat) : toWords l = l ∧ fromWords l = l ∧ toWords (fromWords l) = l :=
